@@ -15,6 +15,7 @@ from exabgp.bgp.message.update.nlri.evpn.nlri import EVPN
 from exabgp.bgp.message.update.nlri.qualifier import ESI, EthernetTag, Labels, RouteDistinguisher
 from exabgp.bgp.message.update.nlri.qualifier import MAC as MACQUAL
 from exabgp.bgp.message.update.nlri.qualifier.path import PathInfo
+from exabgp.protocol.family import Family
 from exabgp.protocol.ip import IP
 from exabgp.util.types import Buffer
 
@@ -146,11 +147,18 @@ class MAC(EVPN):
         return Labels.unpack_labels(self._packed[label_start : label_start + 3])
 
     def index(self) -> bytes:
-        # Note: Per RFC 7432 Section 7.2, the route key for Type 2 should only include
-        # etag, mac, and ip (ESI and labels are attributes, not key). However, this
-        # implementation uses full packed bytes for index. The __eq__ method correctly
-        # excludes ESI and label for semantic equality comparisons.
-        return EVPN.index(self)
+        # RFC 7432 Section 7.2: the route key is the RD, the Ethernet Tag, the MAC length, the MAC,
+        # the IP length and the IP. The ESI and the labels are not part of it (and neither is the
+        # length octet of the header, which changes with the number of labels). __eq__ and
+        # __hash__ leave them out too: with the whole NLRI as index two equal routes had two
+        # indexes, and the RIB held a re-announcement with another label or ESI as a second route.
+        iplen_bytes = self._packed[31] // 8
+        return (
+            bytes(Family.index(self))
+            + bytes(self._packed[0:1])
+            + bytes(self._packed[2:10])
+            + bytes(self._packed[20 : 32 + iplen_bytes])
+        )
 
     def __eq__(self, other: object) -> bool:
         return (
@@ -158,6 +166,7 @@ class MAC(EVPN):
             and self.CODE == other.CODE
             and self.rd == other.rd
             and self.etag == other.etag
+            and self.maclen == other.maclen
             and self.mac == other.mac
             and self.ip == other.ip
         )
